@@ -15,7 +15,7 @@
 //! Isolation: sessions run in child processes (`worker`), several per child.  In the child every session
 //! runs under `vcore::guarded` (panic -> outcome "panic" + location), a capping global allocator (a
 //! request that would take the session beyond 16 MiB + 64 x input size is refused and recorded ->
-//! outcome "alloc"), an address-space limit (backstop for C codec libraries) and a watchdog thread (8 s of
+//! outcome "alloc"), an address-space limit (backstop for C codec libraries) and a watchdog thread (4 s of
 //! CPU or 90 s wall clock -> outcome "hang", the child exits).  The parent restarts a dead child after the
 //! session that killed it and records that session's outcome from the markers the child left
 //! (`crash` when there is none: abort / stack overflow / signal).
@@ -481,7 +481,7 @@ fn worker(args: &Args) {
     use std::os::fd::AsRawFd;
     alloc::MARK_FD.store(prog.as_raw_fd(), std::sync::atomic::Ordering::Relaxed);
     alloc::cap_address_space(6 << 30);
-    alloc::start_watchdog(8, 90);
+    alloc::start_watchdog(4, 90);
     let (mut chunk, mut written) = last_chunk(&args.out, &mode, w);
     let open = |chunk: usize| std::fs::OpenOptions::new().create(true).append(true).open(shard_path(&args.out, &mode, w, chunk)).unwrap();
     let mut shard = open(chunk);
